@@ -112,6 +112,12 @@ def _cli_batch(job):
             if bad or got != expected:
                 sp = [g for g in got if g not in expected]
                 ms = [e for e in expected if e not in got]
+                quirk = set(l["n"] for l in lines if l.get("quirk"))
+                if not bad and quirk and all(n in quirk for n in sp + ms):
+                    _viol(rep, "C01:unicode-word-boundary-next-to-invalid-utf8",
+                          "rg %s: lines %s differ, all next to invalid UTF-8 under a Unicode word boundary" % (" ".join(args[6:-1]), (sp + ms)[:10]),
+                          case, invert, args, so, se, status, expected, got)
+                    continue
                 d = "unparsable" if bad else ("spurious" if sp and not ms else ("missed" if ms and not sp else "both"))
                 _viol(rep, "C01:cli:%s:%s%s" % (term, d, ":inverted" if invert else ""),
                       "rg %s reports lines %s, oracle says %s" % (" ".join(args[6:-1]), got[:10], expected[:10]),
